@@ -177,6 +177,11 @@ class HistogramBase(abc.ABC):
         self._meta_data = kwargs.copy()
         self.axis_names = tuple(axis_names or self.default_axis_names)
 
+    # Make numpy scalars / arrays on the left of an operator defer to the
+    # histogram's reflected methods (otherwise numpy uses __array__ and returns
+    # a bare array of frequencies).
+    __array_priority__ = 100
+
     # "Protected" attributes
     _binnings: List[BinningBase]
     _frequencies: np.ndarray
@@ -876,7 +881,7 @@ class HistogramBase(abc.ABC):
         return new
 
     def __radd__(self, other):
-        if other == 0:  # Enable sum()
+        if np.isscalar(other) and other == 0:  # Enable sum()
             return self
         return self + other
 
